@@ -22,6 +22,8 @@ inductive NOp where
   | raftRemove (k : SKey) (short : ShortKey) (now : Int)
   /-- another node's digest of its gRPC connections (`SyncDistroClientInstances` -> `DiffGrpcDistroData`) -/
   | digest (data : List (String × List IKey)) (now : Int)
+  /-- the result of the TCP probe of a persistent instance's host (`PerpetualHostSniffing`) -/
+  | probe (k : SKey) (short : ShortKey) (ok : Bool)
   deriving Repr
 
 def step (n : Naming) : NOp → Naming
@@ -33,6 +35,7 @@ def step (n : Naming) : NOp → Naming
   | .clearEmpty k now => n.clearOneEmpty k now
   | .raftRemove k s now => n.raftRemove k s now
   | .digest data now => (n.diffClientData data now).1
+  | .probe k s ok => n.probe k s ok
 
 theorem inv_raftRemove (n : Naming) (k : SKey) (short : ShortKey) (now : Int) (h : Inv n) : Inv (n.raftRemove k short now) := by
   unfold Naming.raftRemove
@@ -75,6 +78,7 @@ theorem inv_step (n : Naming) (op : NOp) (h : Inv n) (hop : match op with | .upd
   | clearEmpty k now => exact inv_clearOneEmpty n k now h
   | raftRemove k s now => exact inv_raftRemove n k s now h
   | digest data now => exact inv_diffClientData n data now h
+  | probe k s ok => exact inv_probe n k s ok h
 
 /-- **the bookkeeping invariant holds at every moment** -/
 theorem inv_reachable (ops : List NOp) (hok : OpsOK ops) : Inv (run {} ops) := by
